@@ -118,3 +118,21 @@ impl<T> HashSet<T> {
 /// elem_order() is by definition a duplicate-free enumeration of exactly the elements (trusted axiom of the model)
 pub axiom fn axiom_hashset_order_ok<T>(s: HashSet<T>)
     ensures s.order_ok();
+
+impl<K, V> HashMap<K, V> {
+    /// `get_mut`: a mutable borrow of the stored value; when the borrow ends the map holds the final value under the same key
+    #[verifier::external_body]
+    pub fn get_mut<'a>(&'a mut self, k: &K) -> (r: Option<&'a mut V>)
+        ensures match r {
+            Some(v) => old(self).view().contains_key(*k) && *v == old(self).view()[*k] && final(self).view() == old(self).view().insert(*k, *final(v)),
+            None => !old(self).view().contains_key(*k) && final(self).view() == old(self).view(),
+        }
+    { unimplemented!() }
+}
+impl<T> HashSet<T> {
+    /// by-value iteration: every element exactly once (order unspecified)
+    #[verifier::external_body] pub fn into_iter(self) -> (r: VxIter<T>)
+        ensures forall|i: int| 0 <= i < r.items().len() ==> self.view().contains(#[trigger] r.items()[i]),
+            forall|t: T| self.view().contains(t) ==> exists|i: int| 0 <= i < r.items().len() && #[trigger] r.items()[i] == t,
+    { unimplemented!() }
+}
